@@ -24,6 +24,9 @@ type genCase struct {
 	Shape  gen.ActionShape `json:"shape"`
 	// Renumber: named tokens are re-declared untagged with an explicit number on a later line
 	Renumber bool `json:"renumber,omitempty"`
+	// Nested: every action also parses the same input once more from inside the action
+	// (PushContex/ParserInit/Parser/PopContex on the global parser, a fresh context with -o)
+	Nested bool `json:"nested,omitempty"`
 }
 
 func genDepth(w *Worker) int {
@@ -132,7 +135,7 @@ type val struct {
 
 // evalAction mirrors gen.ActionFor.
 func evalAction(r int, rule gram.Rule, tags gen.Tags, shape gen.ActionShape, args []val) val {
-	if shape == gen.NoAction || (shape == gen.Mixed && r%2 == 0) {
+	if shape == gen.NoAction || (shape == gen.Mixed && r%2 == 0) || gen.IsBare(shape, r, rule) {
 		return val{}
 	}
 	lt := tags[rule.L]
@@ -352,6 +355,29 @@ func genPhase(w *Worker, id string) {
 	if id == "C07" {
 		corpus = c07Corpus(w, corpus)
 	}
+	if id == "C08" {
+		// rules without any action block (conflict-free families only: their parsers cannot loop)
+		var bare []*genCase
+		for _, c := range corpus {
+			if strings.HasPrefix(c.Origin, "family:") && c.Tags == nil && c.Shape == gen.UseAll && !c.Renumber {
+				if ref.FromSpec(c.Spec).LR0().Table().ConflictFree {
+					bare = append(bare, &genCase{Origin: c.Origin + " [some rules without action]", Spec: c.Spec, Shape: gen.Bare})
+				}
+			}
+		}
+		corpus = append(corpus, bare...)
+	}
+	if id == "C07" || id == "C17" || id == "C08" {
+		// the family grammars once more with a nested parse inside every action: what the outer
+		// parse computes, reduces and traces must not change
+		var nested []*genCase
+		for _, c := range corpus {
+			if strings.HasPrefix(c.Origin, "family:") && c.Tags == nil && c.Shape == gen.UseAll && !c.Renumber {
+				nested = append(nested, &genCase{Origin: c.Origin + " [nested parses]", Spec: c.Spec, Shape: gen.UseAll, Nested: true})
+			}
+		}
+		corpus = append(corpus, nested...)
+	}
 	var mine []*genCase
 	for i, c := range corpus {
 		if w.Mine(int64(i)) {
@@ -394,6 +420,7 @@ func genBatch(w *Worker, id string, cases []*genCase, name string) {
 		g := ref.FromSpec(c.Spec)
 		tags, shape := genTags(id, c)
 		d := gen.DecorateOpt(c.Spec, tags, shape, c.Renumber)
+		d.Nested = c.Nested
 		o := &obs{c: c, g: g, d: d, runs: map[string][]*rt.Result{}, dumps: map[string][][]int{}, items: map[string]*gen.Item{}}
 		// the model comes from an in-process build of the same text
 		res := ygo.Build(d.Source(gen.Go, "model"), ygo.Options{Fuel: buildFuel})
@@ -606,6 +633,16 @@ func genJudge(w *Worker, id string, o *obs, variants []string) {
 			}
 			if o.d.Shape == gen.PlainCopy {
 				p.Reds = nil
+			}
+			if o.d.Shape == gen.Bare {
+				// rules without an action block do not record their reduction
+				var kept []rt.Red
+				for _, rd := range p.Reds {
+					if !gen.IsBare(gen.Bare, rd.Rule, o.d.Spec.Rules[rd.Rule-1]) {
+						kept = append(kept, rd)
+					}
+				}
+				p.Reds = kept
 			}
 			if p.Class == r.Class && (p.Class == "loop" || p.Class == "crash" || (p.Fetches == r.Fetches && sameReds(p.Reds, r.Reds, true) && (p.Class != "accept" || (p.N == r.N && p.S == r.S)))) {
 				w.Count("gen_traces_validated", 1)
